@@ -42,11 +42,20 @@ func (s spec) id() string {
 
 func i32(v int64) fl.Expr { return fl.L(fl.I32, v) }
 
+// struct element kinds: 16 bytes (a power of two), 12 and 24 bytes (even, not a power of two:
+// index scaling cannot be a single shift), 9 -> 16 with padding
+var structKinds = map[string][]fl.Field{
+	"struct": {{"A", fl.I32}, {"B", fl.I64}},
+	"s12":    {{"A", fl.I32}, {"B", fl.I32}, {"C", fl.I32}},
+	"s24":    {{"A", fl.I64}, {"B", fl.I64}, {"C", fl.I8}},
+	"s6":     {{"A", fl.I16}, {"B", fl.I16}, {"C", fl.I16}},
+}
+
 // build constructs the program; ok=false if the combination does not apply.
 func build(s spec, sfx string) (*fl.Program, bool) {
 	p := &fl.Program{}
-	isStruct := s.elem == "struct"
-	if (s.acc == "field-read" || s.acc == "field-write") != isStruct {
+	sf, isStruct := structKinds[s.elem]
+	if fieldAcc := s.acc == "field-read" || s.acc == "field-write"; fieldAcc != isStruct && !(isStruct && s.acc == "write") {
 		return nil, false
 	}
 	var et fl.Type = fl.I32
@@ -56,15 +65,16 @@ func build(s spec, sfx string) (*fl.Program, bool) {
 		et = fl.I8
 	case "i64":
 		et = fl.I64
-	case "struct":
-		st = &fl.TStruct{Name: "El" + sfx, Fields: []fl.Field{{"A", fl.I32}, {"B", fl.I64}}}
+	}
+	if isStruct {
+		st = &fl.TStruct{Name: "El" + sfx, Fields: sf}
 		p.Structs = append(p.Structs, st)
 		et = st
 	}
 	elemLit := func(j int) fl.Expr {
 		v := int64(10 * (j + 1))
 		if isStruct {
-			return &fl.StructLit{T: st, Vals: []fl.Expr{i32(v), fl.L(fl.I64, v+1)}}
+			return elemWith(et, st, v)
 		}
 		return fl.L(et.(fl.TInt), v)
 	}
@@ -211,7 +221,7 @@ func build(s spec, sfx string) (*fl.Program, bool) {
 	case "field-read":
 		acc = []fl.Stmt{fl.P(fl.F(e, "B"))}
 	case "field-write":
-		acc = []fl.Stmt{&fl.Assign{LHS: fl.F(e, "A"), RHS: i32(99)}}
+		acc = []fl.Stmt{&fl.Assign{LHS: fl.F(e, "A"), RHS: fl.L(sf[0].T.(fl.TInt), 99)}}
 	}
 	if isStruct && (s.acc == "read" || s.acc == "read-twice" || s.acc == "compound-write" || s.acc == "borrow-read" || s.acc == "optional-init" || s.acc == "arg" || s.acc == "return") {
 		return nil, false
@@ -219,7 +229,9 @@ func build(s spec, sfx string) (*fl.Program, bool) {
 	var dump []fl.Stmt
 	for j := 0; j < s.n; j++ {
 		if isStruct {
-			dump = append(dump, fl.P(fl.F(fl.Ix(a, i32(int64(j))), "A")), fl.P(fl.F(fl.Ix(a, i32(int64(j))), "B")))
+			for _, f := range sf {
+				dump = append(dump, fl.P(fl.F(fl.Ix(a, i32(int64(j))), f.Name)))
+			}
 		} else {
 			dump = append(dump, fl.P(fl.Ix(a, i32(int64(j)))))
 		}
@@ -274,7 +286,11 @@ func build(s spec, sfx string) (*fl.Program, bool) {
 
 func elemWith(et fl.Type, st *fl.TStruct, v int64) fl.Expr {
 	if st != nil {
-		return &fl.StructLit{T: st, Vals: []fl.Expr{i32(v), fl.L(fl.I64, v+1)}}
+		var vals []fl.Expr
+		for i, f := range st.Fields {
+			vals = append(vals, fl.L(f.T.(fl.TInt), (v+int64(i))%120))
+		}
+		return &fl.StructLit{T: st, Vals: vals}
 	}
 	return fl.L(et.(fl.TInt), v)
 }
@@ -302,10 +318,10 @@ func Bases(quick bool) []*prog.Case {
 func Run(c *vl.Ctx) {
 	quick := c.Quick()
 	ns := []int{3}
-	elemKinds := []string{"i32", "struct"}
+	elemKinds := []string{"i32", "struct", "s12"}
 	if !quick {
 		ns = []int{1, 3, 4}
-		elemKinds = []string{"i32", "i8", "i64", "struct"}
+		elemKinds = []string{"i32", "i8", "i64", "struct", "s12", "s24", "s6"}
 	}
 	var cases []*prog.Case
 	var specs []spec
